@@ -33,9 +33,10 @@ struct Client {
     QByteArray cnonce; QString user, password; SaslScramMechanism mech;
     std::unique_ptr<QXmppSaslClientScram> c;
     // a client after the (real) constructor, the setters; lengths are per-instance constants, contents arbitrary
-    Client(unsigned nlen, unsigned ulen, unsigned plen, const SaslScramMechanism *sameMech = nullptr)
+    Client(unsigned nlen, unsigned ulen, unsigned plen, const SaslScramMechanism *sameMech = nullptr, const char *fixedNonce = nullptr)
     {
-        cnonce = vpBytesExact(nlen); vp_assume(vpNoByte(cnonce, ','));   // RFC 5802: nonce = printable without ','
+        if (fixedNonce) cnonce = QByteArray(fixedNonce);
+        else { cnonce = vpBytesExact(nlen); vp_assume(vpNoByte(cnonce, ',')); }   // RFC 5802: nonce = printable without ','
         QXmppSaslDigestMd5::setNonce(cnonce);
         mech = sameMech ? *sameMech : symMech();
         c = std::make_unique<QXmppSaslClientScram>(mech, nullptr);
@@ -122,13 +123,19 @@ extern "C" void h_scram_exchange()
 // exactly the RFC 5802 exchange for ITS OWN password - nothing derived for the first login may leak into it.
 extern "C" void h_scram_two_sessions()
 {
-    Client k1(vp_cfg(0), vp_cfg(1), vp_cfg(2));
+    SaslScramMechanism fixedMech { SaslScramMechanism::Algorithm(vp_cfg(4)) };   // per-instance constant (a symbolic hash would make "same hash as before" a symbolic comparison)
+    Client k1(vp_cfg(0), vp_cfg(1), vp_cfg(2), &fixedMech, "c1");   // concrete nonce / salt for the first login: its path stays concrete, its password is arbitrary
     Client k2(vp_cfg(0), vp_cfg(1), vp_cfg(2), &k1.mech);
     auto a0 = k1.c->respond(QByteArray()); auto b0 = k2.c->respond(QByteArray());
     vp_assume(a0.has_value() && b0.has_value());
-    unsigned ln = vp_cfg(3), ls = vp_cfg(4), li = vp_cfg(5);
-    QByteArray N1 = vpBytesExact(ln), N2 = vpBytesExact(ln), S = vpBytesExact(ls), I = vpBytesExact(li);
-    vp_assume(vpNoByte(N1, ',') && vpNoByte(N2, ',') && vpNoByte(S, ',') && vpNoByte(I, ','));
+    // The first login is an honest one (so that it certainly derives keys): client nonce "c1" extended by arbitrary bytes, the salt is
+    // the one byte "s", the iteration field means 4096. The second login gets the same salt and iteration fields
+    // and an arbitrary nonce field.
+    unsigned ln = vp_cfg(3), li = vp_cfg(5);
+    vp_b64_expect_valid(true); vp_toint_fix(4096);
+    QByteArray N1(k1.cnonce); N1.append(vpBytesExact(ln - vp_cfg(0))); QByteArray N2 = vpBytesExact(ln), S = QByteArray("s").toBase64(), I = vpBytesExact(li);
+    unsigned ls = unsigned(S.size());
+    vp_assume(vpNoByte(N1, ',') && vpNoByte(N2, ',') && vpNoByte(I, ','));
     QByteArray sf1("r="); sf1.append(N1); sf1.append(",s="); sf1.append(S); sf1.append(",i="); sf1.append(I);
     QByteArray sf2("r="); sf2.append(N2); sf2.append(",s="); sf2.append(S); sf2.append(",i="); sf2.append(I);
     // reference for the second exchange (computed first: the oracle is order-independent)
